@@ -3,6 +3,9 @@
 // Op lines
 //   f <sexpr>                      build the formula bottom-up through the public API and dump the result
 //   pw e<k>:<sexpr>;e<k>:<sexpr>…  piecewise({(e_k, cond)…})
+//   domc <elem,elem…> <conj;conj…> oracle-only (driver prints SKIP): logical_and({Contains(x, FiniteSet{elems}), conj…})
+//                                  with elements among integers, p/q, pi, E, sqrt2, sqrt3 and conj := lt|le|gt|ge|eq|ne
+//                                  <p/q> (x against a rational bound) | a<i> | n<i> | m<i> | or:<conj>|<conj>
 // sexpr := T | F | a<i> | n<i> | m<i> | x<c | x>=c | x<=c | x>c | x=c | x!=c | x@lo,hi | x#e,e,… | (and s…) | (or s…) | (xor s…) | (not s) | (nand s…) | (nor s…) | (xnor s…)
 //   a<i>/n<i> : a relational atom over its own two symbols and the complementary relational
 //               (i%4: Lt(x,y)/Le(y,x), Le(x,y)/Lt(y,x), Eq(x,y)/Ne(x,y), Ne(x,0)/Eq(x,0))
@@ -25,6 +28,10 @@
 #include <symengine/integer.h>
 #include <symengine/rational.h>
 #include <symengine/subs.h>
+#include <symengine/eval_double.h>
+#include <symengine/constants.h>
+#include <symengine/pow.h>
+#include <cmath>
 
 using namespace SymEngine;
 
@@ -847,6 +854,282 @@ static std::string runPiecewise(const std::string &body, std::string &oracle)
     return out;
 }
 
+// ---------------------------------------------------------------- domc: FiniteSet-domain rule with symbolic constants
+// Oracle only.  The conjunction and the result are evaluated structurally at x = every element of the finite set and at
+// a few points outside it; relationals are decided by eval_double of both sides (points closer than 1e-9 to a bound are
+// skipped), membership in a FiniteSet by structural equality of the canonical objects.
+static bool parseElemC(const std::string &t, RCP<const Basic> &out)
+{
+    if (t == "pi")
+        out = pi;
+    else if (t == "E")
+        out = E;
+    else if (t == "sqrt2")
+        out = sqrt(integer(2));
+    else if (t == "sqrt3")
+        out = sqrt(integer(3));
+    else {
+        auto pq = split(t, '/');
+        if (pq.size() > 2 || pq[0].empty())
+            return false;
+        char *end = nullptr;
+        long p = strtol(pq[0].c_str(), &end, 10), q = 1;
+        if (*end)
+            return false;
+        if (pq.size() == 2) {
+            q = strtol(pq[1].c_str(), &end, 10);
+            if (*end || q <= 0)
+                return false;
+        }
+        out = Rational::from_two_ints(p, q);
+    }
+    return true;
+}
+struct ConjC {
+    std::string kind; // lt le gt ge eq ne | atom name | or
+    RCP<const Basic> bound;
+    std::vector<ConjC> alts;
+};
+static bool parseConjC(const std::string &s, ConjC &c)
+{
+    if (s.compare(0, 3, "or:") == 0) {
+        c.kind = "or";
+        for (auto &p : split(s.substr(3), '|')) {
+            ConjC a;
+            if (!parseConjC(p, a))
+                return false;
+            c.alts.push_back(a);
+        }
+        return c.alts.size() >= 1;
+    }
+    if (!s.empty() && s[0] != 'x' && s != "T" && s != "F" && leafOk(s)) {
+        c.kind = s;
+        return true;
+    }
+    if (s.size() < 3)
+        return false;
+    c.kind = s.substr(0, 2);
+    if (c.kind != "lt" && c.kind != "le" && c.kind != "gt" && c.kind != "ge" && c.kind != "eq" && c.kind != "ne")
+        return false;
+    return parseElemC(s.substr(2), c.bound) && is_a_Number(*c.bound);
+}
+static RCP<const Boolean> buildConjC(const ConjC &c, const RCP<const Basic> &x)
+{
+    if (c.kind == "or") {
+        set_boolean s;
+        for (auto &a : c.alts)
+            s.insert(buildConjC(a, x));
+        return logical_or(s);
+    }
+    if (c.kind == "lt")
+        return Lt(x, c.bound);
+    if (c.kind == "le")
+        return Le(x, c.bound);
+    if (c.kind == "gt")
+        return Gt(x, c.bound);
+    if (c.kind == "ge")
+        return Ge(x, c.bound);
+    if (c.kind == "eq")
+        return Eq(x, c.bound);
+    if (c.kind == "ne")
+        return Ne(x, c.bound);
+    int i = std::stoi(c.kind.substr(1));
+    return c.kind[0] == 'm' ? memAtom(i) : relAtom(i, c.kind[0] == 'n');
+}
+// -1 / 0 / +1 for a < b, a == b, a > b; `amb` set when the doubles are too close to tell
+static int cmpVal(const RCP<const Basic> &a, const RCP<const Basic> &b, bool &amb)
+{
+    if (eq(*a, *b))
+        return 0;
+    double da = eval_double(*a), db = eval_double(*b);
+    if (std::fabs(da - db) < 1e-9) {
+        amb = true;
+        return 0;
+    }
+    return da < db ? -1 : 1;
+}
+static bool evalConjC(const ConjC &c, const RCP<const Basic> &xv, const Assign &as, bool &amb)
+{
+    if (c.kind == "or") {
+        bool r = false;
+        for (auto &a : c.alts)
+            r = evalConjC(a, xv, as, amb) || r;
+        return r;
+    }
+    if (c.kind[0] == 'a' || c.kind[0] == 'm')
+        return as.at(c.kind);
+    if (c.kind[0] == 'n' && c.kind != "ne")
+        return !as.at("a" + c.kind.substr(1));
+    int k = cmpVal(xv, c.bound, amb);
+    if (c.kind == "lt")
+        return k < 0;
+    if (c.kind == "le")
+        return k <= 0;
+    if (c.kind == "gt")
+        return k > 0;
+    if (c.kind == "ge")
+        return k >= 0;
+    if (c.kind == "eq")
+        return k == 0;
+    return k != 0;
+}
+// structural value of a result object at x = xv
+static bool evalObjC(const RCP<const Basic> &b, const RCP<const Basic> &xv, const Assign &as, bool &ok, bool &amb)
+{
+    if (is_a<BooleanAtom>(*b))
+        return down_cast<const BooleanAtom &>(*b).get_val();
+    std::string nm = atoms().name(*b);
+    if (!nm.empty()) {
+        auto it = as.find(nm[0] == 'n' ? "a" + nm.substr(1) : nm);
+        if (it == as.end()) {
+            ok = false;
+            return false;
+        }
+        return nm[0] == 'n' ? !it->second : it->second;
+    }
+    map_basic_basic d;
+    d[symbol("x")] = xv;
+    if (is_a<StrictLessThan>(*b) || is_a<LessThan>(*b) || is_a<Equality>(*b) || is_a<Unequality>(*b)) {
+        const Relational &r = down_cast<const Relational &>(*b);
+        int k = cmpVal(r.get_arg1()->subs(d), r.get_arg2()->subs(d), amb);
+        if (is_a<StrictLessThan>(*b))
+            return k < 0;
+        if (is_a<LessThan>(*b))
+            return k <= 0;
+        if (is_a<Equality>(*b))
+            return k == 0;
+        return k != 0;
+    }
+    if (is_a<Contains>(*b)) {
+        const Contains &c = down_cast<const Contains &>(*b);
+        RCP<const Basic> e = c.get_expr()->subs(d);
+        if (is_a<FiniteSet>(*c.get_set())) {
+            for (auto &el : down_cast<const FiniteSet &>(*c.get_set()).get_container())
+                if (eq(*el, *e))
+                    return true;
+            return false;
+        }
+        ok = false;
+        return false;
+    }
+    if (is_a<And>(*b)) {
+        bool r = true;
+        for (auto &a : down_cast<const And &>(*b).get_container())
+            r = evalObjC(a, xv, as, ok, amb) && r;
+        return r;
+    }
+    if (is_a<Or>(*b)) {
+        bool r = false;
+        for (auto &a : down_cast<const Or &>(*b).get_container())
+            r = evalObjC(a, xv, as, ok, amb) || r;
+        return r;
+    }
+    if (is_a<Xor>(*b)) {
+        bool r = false;
+        for (auto &a : down_cast<const Xor &>(*b).get_container())
+            r = (evalObjC(a, xv, as, ok, amb) != r);
+        return r;
+    }
+    if (is_a<Not>(*b))
+        return !evalObjC(down_cast<const Not &>(*b).get_arg(), xv, as, ok, amb);
+    ok = false;
+    return false;
+}
+static void conjKeysC(const ConjC &c, std::vector<std::string> &keys, vec_basic &bounds)
+{
+    if (c.kind == "or") {
+        for (auto &a : c.alts)
+            conjKeysC(a, keys, bounds);
+        return;
+    }
+    if (!c.bound.is_null()) {
+        bounds.push_back(c.bound);
+        return;
+    }
+    std::string k = c.kind[0] == 'n' ? "a" + c.kind.substr(1) : c.kind;
+    if (std::find(keys.begin(), keys.end(), k) == keys.end())
+        keys.push_back(k);
+}
+
+static std::string runDomC(const std::string &body, std::string &oracle)
+{
+    auto w = split(body, ' ');
+    if (w.size() != 2)
+        return "bad-op";
+    vec_basic elems;
+    for (auto &t : split(w[0], ',')) {
+        RCP<const Basic> e;
+        if (!parseElemC(t, e))
+            return "bad-op";
+        elems.push_back(e);
+    }
+    std::vector<ConjC> conj;
+    if (w[1] != "-")
+        for (auto &p : split(w[1], ';')) {
+            ConjC c;
+            if (!parseConjC(p, c))
+                return "bad-op";
+            conj.push_back(c);
+        }
+    RCP<const Basic> x = symbol("x");
+    set_basic fe(elems.begin(), elems.end());
+    set_boolean s;
+    s.insert(contains(x, finiteset(fe)));
+    for (auto &c : conj)
+        s.insert(buildConjC(c, x));
+    stat("api_and_domain_const");
+    RCP<const Boolean> res = logical_and(s);
+    std::vector<std::string> keys;
+    vec_basic pts(elems);
+    vec_basic bounds;
+    for (auto &c : conj)
+        conjKeysC(c, keys, bounds);
+    if (keys.size() > 6)
+        return "bad-op";
+    for (auto &bd : bounds) { // outside points: the bounds themselves and their neighbours
+        pts.push_back(bd);
+        pts.push_back(add(bd, Rational::from_two_ints(1, 7)));
+        pts.push_back(sub(bd, Rational::from_two_ints(1, 7)));
+    }
+    pts.push_back(integer(100));
+    pts.push_back(integer(-100));
+    std::string cp = canonProblem(res);
+    if (!cp.empty() && oracle == "ok")
+        oracle = "FAIL:canonical:" + cp;
+    for (auto &xv : pts)
+        for (unsigned mask = 0; mask < (1u << keys.size()); mask++) {
+            Assign as = assignment(keys, mask);
+            bool amb = false, ok = true;
+            bool want = false;
+            for (auto &e : elems)
+                if (eq(*e, *xv))
+                    want = true;
+            for (auto &c : conj)
+                want = evalConjC(c, xv, as, amb) && want;
+            bool got = evalObjC(res, xv, as, ok, amb);
+            if (amb) {
+                stat("domc_ambiguous_points");
+                continue;
+            }
+            stat("assignments");
+            if (!ok) {
+                if (oracle == "ok")
+                    oracle = "FAIL:shape:unexpected object in the result " + res->__str__();
+                return "SKIP";
+            }
+            if (got != want && oracle == "ok") {
+                std::string ms;
+                for (size_t k = 0; k < keys.size(); k++)
+                    ms += "," + keys[k] + "=" + (((mask >> k) & 1) ? "1" : "0");
+                oracle = "FAIL:domain:conjunction is " + std::to_string(want) + " but the result " + res->__str__()
+                         + " is " + std::to_string(got) + " at x=" + xv->__str__() + ms;
+            }
+        }
+    stat(std::string("domc_result_") + (is_a<Contains>(*res) ? "contains" : is_a<And>(*res) ? "and"
+                                        : is_a<BooleanAtom>(*res) ? "const" : "other"));
+    return "SKIP";
+}
+
 std::string hx_run(const std::string &line, std::string &oracle)
 {
     size_t sp = line.find(' ');
@@ -857,6 +1140,8 @@ std::string hx_run(const std::string &line, std::string &oracle)
         return runFormula(body, oracle);
     if (cmd == "pw")
         return runPiecewise(body, oracle);
+    if (cmd == "domc")
+        return runDomC(body, oracle);
     return "bad-op";
 }
 
@@ -1048,5 +1333,49 @@ void hx_gen(Rng &r, const std::string &tier)
         Pool p = randomPool(r, 1 + (int)r.below(3));
         std::string f = "(" + std::string(ops[r.below(6)]) + " " + xform(p, 3, true) + " " + xform(p, 3, true) + ")";
         emit("f " + f, "rand-xmix");
+    }
+    // FiniteSet-domain rule with symbolic constants / rationals / radicals among the elements (oracle only)
+    emit("domc 1,pi lt2", "domc-sys");
+    emit("domc 1,pi gt2", "domc-sys");
+    emit("domc 1,pi,E,sqrt2 lt3/2", "domc-sys");
+    emit("domc 1/2,pi,3 ge1;a0", "domc-sys");
+    emit("domc 1,2,E or:lt3/2|gt5/2", "domc-sys");
+    emit("domc pi,2 -", "domc-sys");
+    for (int i = 0; i < (th ? 12000 : 1500); i++) {
+        static const char *special[] = {"pi", "E", "sqrt2", "sqrt3"};
+        std::vector<std::string> el;
+        int m = 2 + (int)r.below(4);
+        el.push_back(std::to_string(r.range(-1, 4))); // at least one Number so that the rule is attempted
+        for (int j = 1; j < m; j++) {
+            unsigned k = r.below(10);
+            if (k < 5)
+                el.push_back(special[r.below(4)]);
+            else if (k < 8)
+                el.push_back(std::to_string(r.range(-3, 9)) + "/" + std::to_string(2 + r.below(3)));
+            else
+                el.push_back(std::to_string(r.range(-1, 4)));
+        }
+        for (size_t j = el.size(); j > 1; j--)
+            std::swap(el[j - 1], el[r.below(j)]);
+        auto bound = [&]() { return std::to_string(r.range(-2, 14)) + "/" + std::to_string(1 + r.below(4)); };
+        // most cases have no opaque atoms at all: then the result hinges only on how closed-but-unevaluated
+        // conditions (pi < 2) are classified
+        bool pureX = r.coin(2, 3);
+        std::function<std::string(bool)> cj = [&](bool allowOr) -> std::string {
+            static const char *rel[] = {"lt", "le", "gt", "ge", "eq", "ne"};
+            unsigned k = r.below(allowOr ? 12 : 10);
+            if (k < 7 || (pureX && k < 10))
+                return std::string(rel[r.below(r.coin(1, 4) ? 6 : 4)]) + bound();
+            if (k < 9)
+                return (r.coin() ? "a" : "n") + std::to_string(r.below(3));
+            if (k < 10)
+                return "m" + std::to_string(r.below(2));
+            return "or:" + cj(false) + "|" + cj(false);
+        };
+        int nc = r.coin(1, 10) ? 0 : 1 + (int)r.below(3);
+        std::vector<std::string> cs;
+        for (int j = 0; j < nc; j++)
+            cs.push_back(cj(true));
+        emit("domc " + join(el, ",") + " " + (cs.empty() ? "-" : join(cs, ";")), pureX ? "rand-domc-pure" : "rand-domc");
     }
 }
